@@ -185,8 +185,8 @@ func validate(sc *Scenario) error {
 			end = e
 		}
 		// firings of the tickers stay bounded
-		dur := trackEndNS(tr) - tr.StartNS + tr.SndLinger
-		if dur/tr.SndPerNS > 2000 || (dur+tr.PktDelay)/tr.RcvPerNS > 2000 {
+		dur := trackEndNS(tr) - tr.StartNS
+		if (dur+tr.SndLinger)/tr.SndPerNS > 2000 || (dur+tr.PktDelay)/tr.RcvPerNS > 2000 {
 			return fmt.Errorf("track %d: too many ticker firings", ti)
 		}
 	}
@@ -495,22 +495,24 @@ type trk struct {
 	pkts []*rtp.Packet
 
 	sndOpen, rcvOpen bool
+	opened           bool
+	ssrc             uint32
 	rr               atomic.Int64
 
 	mu   sync.Mutex
 	caps []capd
 
-	nCap          int   // reports captured so far
-	capAtWrite    []int // reports captured before packet i was written
-	writtenAtCap  []int // packets written before report j was captured
-	capNS         []int64
-	written       int
-	delivered     int
-	srDelivered   int
-	lastPktDeliv  int64
-	lastSRDeliv   int64
-	lastSRCapNS   int64
-	srProcessed   bool
+	nCap         int   // reports captured so far
+	capAtWrite   []int // reports captured before packet i was written
+	writtenAtCap []int // packets written before report j was captured
+	capNS        []int64
+	written      int
+	delivered    int
+	srDelivered  int
+	lastPktDeliv int64
+	lastSRDeliv  int64
+	lastSRCapNS  int64
+	srProcessed  bool
 
 	// PTS continuation
 	accepted bool
@@ -573,7 +575,8 @@ type sim struct {
 	notify chan struct{}
 
 	ptsChecks, ntpChecks, lateChecks, rtChecks int
-	before2000, after2030                    bool
+	before2000, after2030                      bool
+	lateDev                                    float64 // largest deviation seen by oracle 2, in ticks of the late track
 }
 
 func (s *sim) now() int64 { return int64(time.Since(s.start)) }
@@ -657,42 +660,7 @@ func (s *sim) simulate() {
 				Payload: []byte{flag, byte(p.N), byte(p.N >> 8)},
 			})
 		}
-		t.snd = &rtpsender.Sender{
-			ClockRate: spec.Rate,
-			Period:    time.Duration(spec.SndPerNS),
-			TimeNow:   s.wall,
-			WritePacketRTCP: func(p rtcp.Packet) {
-				sr, ok := p.(*rtcp.SenderReport)
-				if !ok {
-					return
-				}
-				t.mu.Lock()
-				t.caps = append(t.caps, capd{sr: sr, at: s.now()})
-				t.mu.Unlock()
-				select {
-				case s.notify <- struct{}{}:
-				default:
-				}
-			},
-		}
-		t.snd.Initialize()
-		t.sndOpen = true
-		t.rcv = &rtpreceiver.Receiver{
-			ClockRate:       spec.Rate,
-			LocalSSRC:       ssrc ^ 0x5a5a5a5a,
-			Period:          time.Duration(spec.RcvPerNS),
-			TimeNow:         s.wall,
-			WritePacketRTCP: func(rtcp.Packet) { t.rr.Add(1) },
-		}
-		if err := t.rcv.Initialize(); err != nil {
-			s.fail("c15/config receiver", "Receiver.Initialize: %v", err)
-			t.snd.Close()
-			t.sndOpen = false
-			s.tracks = append(s.tracks, t)
-			s.closeAll()
-			return
-		}
-		t.rcvOpen = true
+		t.ssrc = ssrc
 		s.tracks = append(s.tracks, t)
 		for j := range spec.Pkts {
 			s.push(&ev{at: t.w[j], kind: evWrite, tr: i, idx: j})
@@ -730,6 +698,46 @@ func (s *sim) simulate() {
 	synctest.Wait()
 	s.closeAll()
 	s.res.SimNS = s.now()
+}
+
+// open creates the Sender and the Receiver of a track (at the instant of its
+// first packet, so that their tickers do not run while the track does not exist).
+func (s *sim) open(t *trk) bool {
+	spec := t.spec
+	t.snd = &rtpsender.Sender{
+		ClockRate: spec.Rate,
+		Period:    time.Duration(spec.SndPerNS),
+		TimeNow:   s.wall,
+		WritePacketRTCP: func(p rtcp.Packet) {
+			sr, ok := p.(*rtcp.SenderReport)
+			if !ok {
+				return
+			}
+			t.mu.Lock()
+			t.caps = append(t.caps, capd{sr: sr, at: s.now()})
+			t.mu.Unlock()
+			select {
+			case s.notify <- struct{}{}:
+			default:
+			}
+		},
+	}
+	t.snd.Initialize()
+	t.sndOpen = true
+	t.rcv = &rtpreceiver.Receiver{
+		ClockRate:       spec.Rate,
+		LocalSSRC:       t.ssrc ^ 0x5a5a5a5a,
+		Period:          time.Duration(spec.RcvPerNS),
+		TimeNow:         s.wall,
+		WritePacketRTCP: func(rtcp.Packet) { t.rr.Add(1) },
+	}
+	if err := t.rcv.Initialize(); err != nil {
+		s.fail("c15/config receiver", "Receiver.Initialize: %v", err)
+		return false
+	}
+	t.rcvOpen = true
+	t.opened = true
+	return true
 }
 
 func (s *sim) closeAll() {
@@ -812,6 +820,9 @@ func (s *sim) write(t *trk, i int) {
 	p := t.spec.Pkts[i]
 	pkt := t.pkts[i]
 	now := s.now()
+	if !t.opened && !s.open(t) {
+		return
+	}
 	// The instant the writer associates with this packet's timestamp. For a
 	// time anchor it is the writer's clock right now (the packet is written at
 	// the instant of its tick, rounded down to ns); for a B packet it is the
@@ -1005,6 +1016,9 @@ func (s *sim) checkLate(x *trk, got int64, now int64) {
 	if dev.Cmp(strict) > 0 {
 		s.res.Probes["late_track_off_more_than_one_tick_each"]++
 	}
+	if d, _ := dev.Float64(); d > s.lateDev {
+		s.lateDev = d
+	}
 	if dev.Cmp(tol) > 0 {
 		lof, _ := lo.Float64()
 		hif, _ := hi.Float64()
@@ -1079,6 +1093,7 @@ func run(t *testing.T, sc Scenario) *core.Result {
 	res.Sample = map[string]any{
 		"base": time.Unix(0, sc.BaseUnixNS).UTC().Format(time.RFC3339Nano), "tracks": ts,
 		"pts_checks": s.ptsChecks, "ntp_checks": s.ntpChecks, "late_checks": s.lateChecks, "roundtrip_checks": s.rtChecks,
+		"late_max_dev_ticks": s.lateDev,
 	}
 	if s.viol != nil {
 		n := len(s.log)
@@ -1167,12 +1182,16 @@ func shrink(sc Scenario) []Scenario {
 	}
 	// fewer reports
 	for i, t := range sc.Tracks {
-		c := clone(sc)
-		c.Tracks[i].SndPerNS = t.SndPerNS * 4
-		add(c)
-		c = clone(sc)
-		c.Tracks[i].RcvPerNS = t.RcvPerNS * 4
-		add(c)
+		if t.SndPerNS < int64(24*time.Hour) {
+			c := clone(sc)
+			c.Tracks[i].SndPerNS = t.SndPerNS * 4
+			add(c)
+		}
+		if t.RcvPerNS < int64(24*time.Hour) {
+			c := clone(sc)
+			c.Tracks[i].RcvPerNS = t.RcvPerNS * 4
+			add(c)
+		}
 	}
 	// simpler parameters
 	for i, t := range sc.Tracks {
